@@ -23,6 +23,7 @@ func init() {
 	r10Wrap("C11", r10Lines)
 	r10Wrap("C09", r10Lines)
 	r10Wrap("C02", r10BigShort)
+	r10Wrap("C02", r10SameKey)
 	r10Wrap("C17", r10BigShort)
 	replayers["C02WB"] = func(c *ctx, in []string) {
 		n, _ := strconv.Atoi(in[0])
@@ -103,6 +104,18 @@ func r10BigShort(c *ctx) {
 		for _, take := range []int{0, 1, 5, n / 2, n - 1, n} {
 			c02WB(c, n, take, true)
 			c02WB(c, n, take, false)
+		}
+	}
+}
+
+// r10-C02: the streaming mask reader re-armed with the SAME source object and the SAME key (what wsutil.Reader does for
+// two consecutive frames of a client that reuses its key) after k bytes, k not a multiple of 4: the key stream restarts
+// at offset 0 (kind CRS, shared with C18)
+func r10SameKey(c *ctx) {
+	for k := 0; k <= 9; k++ {
+		for _, n := range []int{0, 1, 5, 8, 13, 130} {
+			crs(c, c.payload(k), c.payload(n), [4]byte{0xa1, 0xb2, 0xc3, byte(0xd0 + k)})
+			crs(c, c.payload(k), c.payload(n), [4]byte{})
 		}
 	}
 }
